@@ -31,7 +31,7 @@ CONSTANTS
   VarVals, NugVals, ResVals, LenExps, KMax,   \* part C parameter lattice, lags 0..KMax (in len_scale/8)
   Dims,        \* parts B, D: dimensions
   AnisExps,    \* parts B, D: exponents of the anisotropy ratios
-  Quarters,    \* part B: quarter turns used for every rotation angle
+  Angles,      \* part B: rotation angles <<5 cos, 5 sin>>
   SpatialY,    \* part B: dim -> set of integer vectors (isotropic coordinates, units len_scale/8)
   YadK,        \* part B: sphere radii R = kR/8 * len_scale
   IntVals,     \* part D: prescribed integral scales (rationals)
@@ -167,17 +167,25 @@ YadT == {0, 1, 3, 5}
 TwiceSinSixth(t) == CASE t = 0 -> 0 [] t = 1 -> 1 [] t = 3 -> 2 [] t = 5 -> 1
 YadrenkoRule(uR, t) == Red("none", uR * TwiceSinSixth(t))
 
-(* rotations by quarter turns: integer matrices.  Every matrix is 3 x 3 (explicit
-   tuples); a model of dimension d < 3 is embedded: its NoAng(d) angles are the
-   first ones of the 3-D model (the xy plane comes first), the remaining angles
-   are 0, vectors are padded with 0 and ratios with 1.                       *)
-Cos4(q) == CASE q % 4 = 0 -> 1 [] q % 4 = 1 -> 0 [] q % 4 = 2 -> -1 [] q % 4 = 3 -> 0
-Sin4(q) == CASE q % 4 = 0 -> 0 [] q % 4 = 1 -> 1 [] q % 4 = 2 -> 0 [] q % 4 = 3 -> -1
+(* Rotations.  An angle is a pair <<c, s>> = <<5 cos, 5 sin>> of integers with
+   c^2 + s^2 = 25: the quarter turns <<5,0>>, <<0,5>>, <<-5,0>>, <<0,-5>> and the
+   Pythagorean angles (<<3,4>> = atan2(4,3), ...), for which a rotation is not
+   a signed permutation, so direction and order of the rotations matter.
+   Every matrix is 3 x 3 (explicit tuples) with integer entries: a Givens
+   rotation carries the factor 5, a full rotation the factor 125.  A model of
+   dimension d < 3 is embedded: its NoAng(d) angles are the first ones of the
+   3-D model (the xy plane comes first), the remaining angles are zero,
+   vectors are padded with 0 and ratios with 1.
+   Positions of the spatial cases are integers in units of len_scale/2000
+   (= 1/125 of the unit len_scale/16 used everywhere else).                 *)
+A0 == <<5, 0>>
+IsAngle(a) == a[1] * a[1] + a[2] * a[2] = 25
+NegA(a) == <<a[1], -a[2]>>
 NoAng(d) == (d * (d - 1)) \div 2
 Pad3(s, fill) == <<IF Len(s) >= 1 THEN s[1] ELSE fill, IF Len(s) >= 2 THEN s[2] ELSE fill,
                    IF Len(s) >= 3 THEN s[3] ELSE fill>>
 Cut(v, d) == SubSeq(v, 1, d)
-Id3 == << <<1, 0, 0>>, <<0, 1, 0>>, <<0, 0, 1>> >>
+Diag3(c) == << <<c, 0, 0>>, <<0, c, 0>>, <<0, 0, c>> >>
 Dot3(a, b) == a[1] * b[1] + a[2] * b[2] + a[3] * b[3]
 Col3(B, j) == <<B[1][j], B[2][j], B[3][j]>>
 Transpose3(B) == <<Col3(B, 1), Col3(B, 2), Col3(B, 3)>>
@@ -187,31 +195,36 @@ MatMul3(A, B) ==
         <<Dot3(A[2], T[1]), Dot3(A[2], T[2]), Dot3(A[2], T[3])>>,
         <<Dot3(A[3], T[1]), Dot3(A[3], T[2]), Dot3(A[3], T[3])>> >>
 MatVec3(A, v) == <<Dot3(A[1], v), Dot3(A[2], v), Dot3(A[3], v)>>
-(* Givens rotation in the plane of the axes (a, b), a < b: entry (a,b) is -sin *)
-GEntry(a, b, q, i, j) ==
-  IF (i = a /\ j = a) \/ (i = b /\ j = b) THEN Cos4(q)
-  ELSE IF i = a /\ j = b THEN -Sin4(q)
-  ELSE IF i = b /\ j = a THEN Sin4(q)
-  ELSE IF i = j THEN 1 ELSE 0
-Givens3(a, b, q) ==
-  << <<GEntry(a, b, q, 1, 1), GEntry(a, b, q, 1, 2), GEntry(a, b, q, 1, 3)>>,
-     <<GEntry(a, b, q, 2, 1), GEntry(a, b, q, 2, 2), GEntry(a, b, q, 2, 3)>>,
-     <<GEntry(a, b, q, 3, 1), GEntry(a, b, q, 3, 2), GEntry(a, b, q, 3, 3)>> >>
+(* 5 x Givens rotation in the plane of the axes (a, b), a < b: entry (a,b) is -sin *)
+GEntry(a, b, ang, i, j) ==
+  IF (i = a /\ j = a) \/ (i = b /\ j = b) THEN ang[1]
+  ELSE IF i = a /\ j = b THEN -ang[2]
+  ELSE IF i = b /\ j = a THEN ang[2]
+  ELSE IF i = j THEN 5 ELSE 0
+Givens3(a, b, ang) ==
+  << <<GEntry(a, b, ang, 1, 1), GEntry(a, b, ang, 1, 2), GEntry(a, b, ang, 1, 3)>>,
+     <<GEntry(a, b, ang, 2, 1), GEntry(a, b, ang, 2, 2), GEntry(a, b, ang, 2, 3)>>,
+     <<GEntry(a, b, ang, 3, 1), GEntry(a, b, ang, 3, 2), GEntry(a, b, ang, 3, 3)>> >>
 (* rotation planes in the documented order xy, xz, yz; Tait-Bryan convention:
-   alternating signs, the first angle is applied first *)
+   alternating signs, the first angle is applied first.  125 x rotation matrix *)
 Rotate3(qs) ==
-  MatMul3(Givens3(2, 3, qs[3]), MatMul3(Givens3(1, 3, -qs[2]), Givens3(1, 2, qs[1])))
+  MatMul3(Givens3(2, 3, qs[3]), MatMul3(Givens3(1, 3, NegA(qs[2])), Givens3(1, 2, qs[1])))
 (* derotation: negative angles, reverse order *)
 Derotate3(qs) ==
-  MatMul3(MatMul3(Givens3(1, 2, -qs[1]), Givens3(1, 3, qs[2])), Givens3(2, 3, -qs[3]))
-Rotate(d, qs)   == Rotate3(Pad3(qs, 0))
-Derotate(d, qs) == Derotate3(Pad3(qs, 0))
+  MatMul3(MatMul3(Givens3(1, 2, NegA(qs[1])), Givens3(1, 3, qs[2])), Givens3(2, 3, NegA(qs[3])))
+Rotate(d, qs)   == Rotate3(Pad3(qs, A0))
+Derotate(d, qs) == Derotate3(Pad3(qs, A0))
 
-(* isotropic coordinates: derotate, then divide the transversal axes by their ratio *)
+DivExact(x, n) == IF x % n = 0 THEN x \div n ELSE Assert(FALSE, <<"inexact division", x, n>>)
+
+(* isotropic coordinates: derotate, then divide the transversal axes by their ratio.
+   x in units len_scale/2000, result in units len_scale/16 *)
 Iso(d, qs, es, x) ==
-  LET z == MatVec3(Derotate(d, qs), Pad3(x, 0))
+  LET z == MatVec3(Derotate(d, qs), Pad3(x, 0))          \* 125 x derotated x
       e == Pad3(es, 0)
-  IN Cut(<<z[1], DivPow2(z[2], e[1]), DivPow2(z[3], e[2])>>, d)
+  IN Cut(<<DivExact(z[1], 15625), DivPow2(DivExact(z[2], 15625), e[1]),
+           DivPow2(DivExact(z[3], 15625), e[2])>>, d)
+(* y in units len_scale/16, result in units len_scale/2000 *)
 Aniso(d, qs, es, y) ==
   LET w == Pad3(y, 0)
       e == Pad3(es, 0)
@@ -240,11 +253,11 @@ AxisCases(ds) == UNION {UNION {UNION {
 YadCases(ds) == {VCase("yadrenko", "any", 3, 0, <<>>, <<>>, <<>>, 2 * kR, t, YadrenkoRule(2 * kR, t)) :
                kR \in YadK, t \in YadT}
 
-(* positions x = Aniso(2y) (units len_scale/16) for the isotropic vectors y supplied *)
+(* positions x = Aniso(2y) (units len_scale/2000) for the isotropic vectors y supplied *)
 SpatialCases(ds) == UNION {UNION {UNION {
     {LET x == Aniso(d, qs, es, [i \in 1..d |-> 2 * y[i]])
      IN VCase("spatial", "any", d, 0, es, qs, x, 0, 0, SpatialRule(d, qs, es, x)) : y \in SpatialY[d]}
-    : qs \in [1..NoAng(d) -> Quarters]} : es \in [1..d - 1 -> AnisExps]} : d \in ds}
+    : qs \in [1..NoAng(d) -> Angles]} : es \in [1..d - 1 -> AnisExps]} : d \in ds}
 
 InitVariant ==
   /\ part = "variant"
@@ -273,16 +286,18 @@ SpatialSound == vc.kind = "spatial" =>
       R == Rotate(d, vc.qs)
       T == Derotate(d, vc.qs)
       y == Iso(d, vc.qs, vc.es, vc.x)
-  IN /\ MatMul3(T, R) = Id3 /\ MatMul3(R, T) = Id3                  \* derotation undoes rotation
-     /\ MatMul3(R, Transpose3(R)) = Id3                            \* orthogonal
-     /\ (d < 3 => R[3] = <<0, 0, 1>> /\ Col3(R, 3) = <<0, 0, 1>>)    \* embedding of lower dimensions
-     /\ (d < 2 => R = Id3)
-     /\ Aniso(d, vc.qs, vc.es, y) = vc.x                            \* Iso and Aniso are inverse
+  IN /\ \A i \in 1..NoAng(d) : IsAngle(vc.qs[i])
+     /\ MatMul3(T, R) = Diag3(15625) /\ MatMul3(R, T) = Diag3(15625)   \* derotation undoes rotation
+     /\ MatMul3(R, Transpose3(R)) = Diag3(15625)                      \* orthogonal
+     /\ (d < 3 => R[3] = <<0, 0, 125>> /\ Col3(R, 3) = <<0, 0, 125>>)   \* embedding of lower dimensions
+     /\ (d < 2 => R = Diag3(125))
+     /\ Aniso(d, vc.qs, vc.es, y) = vc.x                              \* Iso and Aniso are inverse
      /\ IsSquare(NormSq(y, d)) /\ vc.u * vc.u = NormSq(y, d)
-     /\ SpatialRule(d, vc.qs, vc.es, Neg1(vc.x)).u = vc.u           \* even
-     /\ ((\A i \in 1..d - 1 : vc.es[i] = 0) => vc.u * vc.u = NormSq(vc.x, d))  \* rotations keep the norm
-     /\ ((\A i \in 1..NoAng(d) : vc.qs[i] % 4 = 0) =>
-           vc.u * vc.u = NormSq([i \in 1..d |-> IF i = 1 THEN vc.x[1] ELSE DivPow2(vc.x[i], vc.es[i - 1])], d))
+     /\ SpatialRule(d, vc.qs, vc.es, Neg1(vc.x)).u = vc.u             \* even
+     /\ ((\A i \in 1..d - 1 : vc.es[i] = 0) => 15625 * vc.u * vc.u = NormSq(vc.x, d))  \* rotations keep the norm
+     /\ ((\A i \in 1..NoAng(d) : vc.qs[i] = A0) =>
+           vc.u * vc.u = NormSq([i \in 1..d |-> IF i = 1 THEN DivExact(vc.x[1], 125)
+                                                ELSE DivPow2(DivExact(vc.x[i], 125), vc.es[i - 1])], d))
 
 -----------------------------------------------------------------------------
 (*                 C.  PolyCor: documented closed forms                    *)
